@@ -1742,13 +1742,11 @@ func (trd *tarReadData) tarReadAll(rs io.ReadSeeker) error {
 			name := filepath.ToSlash(filepath.Clean(header.Name))
 			// track symlinks
 			if header.Typeflag == tar.TypeSymlink || header.Typeflag == tar.TypeLink {
-				// normalize target relative to root of tar
+				// normalize target relative to root of tar:
+				// a hard link names its target from the root, a relative symlink from the directory of the link
 				target := header.Linkname
-				if !filepath.IsAbs(target) {
-					target, err = filepath.Rel(filepath.Dir(name), target)
-					if err != nil {
-						return err
-					}
+				if header.Typeflag == tar.TypeSymlink && !filepath.IsAbs(target) {
+					target = filepath.Join(filepath.Dir(name), target)
 				}
 				target = filepath.ToSlash(filepath.Clean("/" + target)[1:])
 				// track and set handleAdded if an existing handler points to the target
